@@ -36,6 +36,8 @@ pub struct ScriptGen<'a> {
     pub extra_msgs_pm: u64,
     pub reply_pm: u64,
     pub remote_pm: u64,
+    /// nested calls carry gas limits
+    pub gas_limits: bool,
 }
 
 impl<'a> ScriptGen<'a> {
@@ -59,6 +61,7 @@ impl<'a> ScriptGen<'a> {
             extra_msgs_pm: 0,
             reply_pm: 0,
             remote_pm: 0,
+            gas_limits: false,
         }
     }
 
@@ -147,7 +150,7 @@ impl<'a> ScriptGen<'a> {
                     _ => Msg::Other { which: rng.below(6) as u8 },
                 };
                 let reply = self.reply_req(rng, owner_cid, depth);
-                let gas_limit = if rng.chance(1, 2) { Some(rng.below(1_000_000)) } else { None };
+                let gas_limit = rng.gas_limit();
                 steps.push(Step::Send(Send { msg, reply, gas_limit }));
             }
         }
@@ -237,7 +240,7 @@ impl<'a> ScriptGen<'a> {
             }
         };
         let reply = self.reply_req(rng, owner_cid, depth);
-        Some(Send { msg, reply, gas_limit: None })
+        Some(Send { msg, reply, gas_limit: if self.gas_limits { rng.gas_limit() } else { None } })
     }
 
     pub fn send_inst(&mut self, rng: &mut Rng, owner_cid: &str, depth: u32) -> Option<Send> {
@@ -261,7 +264,7 @@ impl<'a> ScriptGen<'a> {
             salt: if rng.chance(1, 3) { let n = rng.range(1, 6) as usize; Some(Binary::from(rng.bytes(n))) } else { None },
         };
         let reply = self.reply_req(rng, owner_cid, depth);
-        Some(Send { msg, reply, gas_limit: None })
+        Some(Send { msg, reply, gas_limit: if self.gas_limits { rng.gas_limit() } else { None } })
     }
 
     pub fn query_step(&mut self, rng: &mut Rng) -> Option<Step> {
